@@ -191,7 +191,10 @@ def gen_world(i, R, rng, sw):
         ops.append({"op": "scan", "nonce": G.nonce(rng), "baseline": True})
         ops.append({"op": "cache_delete", "what": "dir"})
     lang = rng.choice(LANGS)
-    cid = rng.choice(BY_LANG[lang])
+    cid = rng.choice(G.ids_for(lang))
+    heavy = [h for h in G.HEAVY if h.startswith(lang + ".")]
+    if heavy and rng.random() < 0.08:
+        cid = rng.choice(heavy)          # ~1000 nested function definitions: seconds per analysis
     d = rng.choice(["", "src", "lib/in/ner", "src/deep"])
     target = (d + "/" if d else "") + "victim" + EXT[lang]
     if target in neighbours:
